@@ -98,7 +98,7 @@ func FinishVoid(fns ...func()) {
 // ForEach 加工所有生成的元素，但并不输出。
 func ForEach(generate GenerateFunc, mapper ForEachFunc, opts ...Option) {
 	options := buildOptions(opts...)
-	panicChan := &onceChan{channel: make(chan any)}
+	panicChan := &onceChan{channel: make(chan any, 1)}
 	source := buildSource(generate, panicChan)
 	collector := make(chan any)
 	done := make(chan lang.PlaceholderType)
@@ -141,14 +141,14 @@ func MapReduceVoid(generate GenerateFunc, mapper MapperFunc, reducer VoidReducer
 
 // MapReduce 加工所有生成的元素，并聚合后输出。
 func MapReduce(generate GenerateFunc, mapper MapperFunc, reducer ReducerFunc, opts ...Option) (any, error) {
-	panicChan := &onceChan{channel: make(chan any)}
+	panicChan := &onceChan{channel: make(chan any, 1)}
 	source := buildSource(generate, panicChan)
 	return mapReduceWithPanicChan(source, panicChan, mapper, reducer, opts...)
 }
 
 // MapReduceChan 加工所有给定的源数据，并聚合输出。
 func MapReduceChan(source <-chan any, mapper MapperFunc, reducer ReducerFunc, opts ...Option) (any, error) {
-	panicChan := &onceChan{channel: make(chan any)}
+	panicChan := &onceChan{channel: make(chan any, 1)}
 	return mapReduceWithPanicChan(source, panicChan, mapper, reducer, opts...)
 }
 
@@ -180,6 +180,14 @@ func mapReduceWithPanicChan(source <-chan any, panicChan *onceChan, mapper Mappe
 		// 聚合只允许写入一次，否则 panic
 		for range output {
 			panic("多次写入聚合器")
+		}
+
+		// 结果被取走之后才发生的 panic（聚合器写入后 panic、生成器稍后 panic）已无人在 select 中接收：
+		// panicChan 带 1 个缓冲，转发方不会被堵住；output 关闭后在此补收，并在调用方协程中重新抛出。
+		select {
+		case v := <-panicChan.channel:
+			panic(v)
+		default:
 		}
 	}()
 
